@@ -231,6 +231,10 @@ func (b *bigmachineExecutor) addInvocation(inv execInvocation) (bool, error) {
 		}
 		b.invocationDeps[inv.Index][result.invIndex] = true
 	}
+	// Tasks capture the invocation, and with it the compilation environment, by
+	// value while it is still being written; make sure the copy that is shipped
+	// to workers is frozen, so that they compile with the driver's decisions.
+	inv.Env.Freeze()
 	b.invocations[inv.Index] = inv
 	return true, nil
 }
